@@ -1261,7 +1261,7 @@ func (f *fragment) minRow(filter *Row) (uint64, uint64) {
 			return minRowID, 1
 		}
 		// iterate from min row ID and return the first that intersects with filter.
-		for i := minRowID; i <= f.maxRowID; i++ {
+		for i := minRowID; i <= f.highestRowID(); i++ {
 			row := f.row(i).Intersect(filter)
 			count := row.Count()
 			if count > 0 {
@@ -1272,22 +1272,40 @@ func (f *fragment) minRow(filter *Row) (uint64, uint64) {
 	return 0, 0
 }
 
+// highestRowID returns an upper bound for the rows that hold bits. maxRowID
+// is only maintained by single-bit sets, so rows written by imports, roaring
+// imports or Store() since the fragment was opened are found in storage.
+func (f *fragment) highestRowID() uint64 {
+	f.mu.RLock()
+	defer f.mu.RUnlock()
+	if max := f.storage.Max() / ShardWidth; max > f.maxRowID {
+		return max
+	}
+	return f.maxRowID
+}
+
 // maxRow returns maxRowID of the rows in the filter and its count.
 // if filter is nil, it returns fragment.maxRowID, 1
 // if fragment has no rows, it returns 0, 0
 func (f *fragment) maxRow(filter *Row) (uint64, uint64) {
 	minRowID, hasRowID := f.minRowID()
 	if hasRowID {
-		if filter == nil {
-			return f.maxRowID, 1
-		}
-		// iterate back from max row ID and return the first that intersects with filter.
+		// iterate back from the highest row ID and return the first row that
+		// has a bit (within the filter). maxRowID is a high-water mark: the
+		// row it names may have been cleared since, so it cannot be returned
+		// unchecked even without a filter.
 		// TODO: implement reverse container iteration to improve performance here for sparse data. --Jaffee
-		for i := f.maxRowID; i >= minRowID; i-- {
-			row := f.row(i).Intersect(filter)
+		for i := f.highestRowID(); ; i-- {
+			row := f.row(i)
+			if filter != nil {
+				row = row.Intersect(filter)
+			}
 			count := row.Count()
 			if count > 0 {
 				return i, count
+			}
+			if i <= minRowID {
+				break
 			}
 		}
 	}
